@@ -14,24 +14,41 @@ BASE=$(cat "$V/benign/BASE")
 T=$(mktemp -d /tmp/rl-benignreg.XXXXXX)
 trap 'for w in "$T"/w*; do git -C /repo worktree remove --force "$w" >/dev/null 2>&1; done; rm -rf "$T"; git -C /repo worktree prune' EXIT
 if [ -n "${RLBIN:-}" ]; then BIN=$RLBIN; else "$V/check" C01 >/dev/null 2>&1 || true; BIN="$V/bin/rlcheck"; fi
-fired() { # <worktree> <verifdir>
+fired() { # <worktree> <verifdir> [names-table]
   local w=$1 s=$2
   for id in $("$BIN" list); do
-    "$BIN" check "$id" --repo "$w" --verif "$s" 2>&1 | grep "violated:\|undecided:" \
+    RLCHECK_PINNED_NAMES="${3:-}" "$BIN" check "$id" --repo "$w" --verif "$s" 2>&1 | grep "violated:\|undecided:" \
       | sed "s/^ *[a-z]*: rule=\([^ ]*\) construct=\(.*\) at [^ ]*: .*/$id \1 \2/"
   done | sort -u
 }
 export -f fired; export BIN V T BASE
 git -C /repo worktree add -f --detach "$T/w0" "$BASE" >/dev/null 2>&1 || exit 2
 mkdir -p "$T/s0/evidence"; : > "$T/s0/known_findings.jsonl"
-fired "$T/w0" "$T/s0" > "$T/base.txt"
+"$BIN" dump-names --repo "$T/w0" > "$T/names-$BASE.json" 2>/dev/null
+fired "$T/w0" "$T/s0" "$T/names-$BASE.json" > "$T/base.txt"
+# what fires on today's HEAD: a rule that fires on an older base but not here reports a defect repaired since
+git -C /repo worktree add -f --detach "$T/w0-HEAD" HEAD >/dev/null 2>&1
+mkdir -p "$T/s0-HEAD/evidence"; : > "$T/s0-HEAD/known_findings.jsonl"
+fired "$T/w0-HEAD" "$T/s0-HEAD" | cut -d' ' -f2 | sort -u > "$T/rules-HEAD.txt"
+# baselines of the other commits patches were written against
+for b in $(cat "$V"/benign/*/BASE 2>/dev/null | sort -u); do
+  git -C /repo worktree add -f --detach "$T/w0-$b" "$b" >/dev/null 2>&1 || continue
+  mkdir -p "$T/s0-$b/evidence"; : > "$T/s0-$b/known_findings.jsonl"
+  "$BIN" dump-names --repo "$T/w0-$b" > "$T/names-$b.json" 2>/dev/null
+  fired "$T/w0-$b" "$T/s0-$b" "$T/names-$b.json" > "$T/base-$b.txt"
+done
 one() {
   d=$1; name=$(basename "$d"); w="$T/w-$name"; s="$T/s-$name"
-  git -C /repo worktree add -f --detach "$w" "$BASE" >/dev/null 2>&1 || { echo "STALE    $name (no worktree)"; return; }
+  # a patch written against a later commit than benign/BASE says so in its own BASE file
+  base=$BASE; basetxt="$T/base.txt"
+  if [ -f "$d/BASE" ]; then base=$(cat "$d/BASE"); basetxt="$T/base-$base.txt"; fi
+  git -C /repo worktree add -f --detach "$w" "$base" >/dev/null 2>&1 || { echo "STALE    $name (no worktree)"; return; }
   mkdir -p "$s/evidence"; : > "$s/known_findings.jsonl"
-  if ! git -C "$w" apply "$d/patch.diff" 2>/dev/null; then echo "STALE    $name (patch does not apply to $BASE)"; git -C /repo worktree remove --force "$w"; return; fi
-  fired "$w" "$s" > "$s/mut.txt"
-  new=$(comm -13 "$T/base.txt" "$s/mut.txt" | cut -d' ' -f2 | sort -u | paste -sd,)
+  if ! git -C "$w" apply "$d/patch.diff" 2>/dev/null; then echo "STALE    $name (patch does not apply to $base)"; git -C /repo worktree remove --force "$w"; return; fi
+  fired "$w" "$s" "$T/names-$base.json" > "$s/mut.txt"
+  # a rule that already reports a (since repaired) defect of the base commit is not counted again when the
+  # refactoring merely moves the construct it is reported on
+  new=$(comm -13 "$basetxt" "$s/mut.txt" | cut -d' ' -f2 | sort -u | grep -vxF -f <(cut -d' ' -f2 "$basetxt" | sort -u | comm -23 - "$T/rules-HEAD.txt") | paste -sd,)
   exp=$(grep -c "^$name\b" "$V/benign/EXPECTED_ALARMS" 2>/dev/null)
   if [ -z "$new" ]; then
     if [ "$exp" -gt 0 ]; then echo "NOW-QUIET $name"; else echo "QUIET    $name"; fi
